@@ -2,7 +2,7 @@
   Oracle for C14.  Reads the harness stream (one case after another)
 
     C <id> <n>
-    G <name> <q>... [A=<float64 bits of the angle the Go code uses>]
+    G <name> <q>... [A=<float64 bits of the angle the Go code uses> T=<angle text>]
     M <k> <dim> <nnz> (<i> <j> <reBits> <imBits>)*     k-th matrix returned by QasmToBmMatrices
     P <dim> <nnz> (...)                                 Go's own product M_last*...*M_0
     S <k> <nnz> (<i> <reBits> <imBits>)*                RunSoftwareSimulation output for basis state k
@@ -134,7 +134,7 @@ def parseG (fs : List String) : G :=
   match fs with
   | name :: rest =>
     let ang := rest.filter (·.startsWith "A=")
-    let qs := rest.filter (fun f => !f.startsWith "A=")
+    let qs := rest.filter (fun f => !f.contains '=')
     ⟨name, qs.map nat!, match ang with | a :: _ => flt (a.drop 2).toString | [] => 0⟩
   | [] => ⟨"?", [], 0⟩
 
@@ -206,6 +206,13 @@ def judge (c : Case) (sym : Bool) : List String := Id.run do
       symOut := symOut ++ symLines c.id n t (l.map (·.args))
       t := t + 1
   -- the models
+  let nzStr (m : Dense) : String := Id.run do
+    let mut r := ""
+    for i in [0:m.dim] do
+      for j in [0:m.dim] do
+        let x := m.get i j
+        if !x.isZero then r := r ++ s!" ({i},{j})={x.str}"
+    return r
   let refs := layers.map fun l => Dense.ofMat N (layerRef n l)
   let fixedM := layers.map fun l => (layer false n l).map fun m => Dense.ofMat m.dim m.e
   let staleM := layers.map fun l => (layer true n l).map fun m => Dense.ofMat m.dim m.e
@@ -215,6 +222,14 @@ def judge (c : Case) (sym : Bool) : List String := Id.run do
     | none => return [hdr ++ " verdict=fail kind=model-self-check"] ++ symOut
     | some fm => if (fm.diff r 1e-12 true).isSome then return [hdr ++ " verdict=fail kind=model-self-check"] ++ symOut
   -- Uref: `BMV.Quantum.Uref` evaluated densely (same fold: a later gate multiplies on the left)
+  if sym then
+    let mut t := 0
+    for r in refs do
+      symOut := symOut ++ [s!"Z id={c.id} layer={t} expected:{nzStr r}"]
+      match c.mats[t]? with
+      | some m => symOut := symOut ++ [s!"Z id={c.id} layer={t} actual:{nzStr m}"]
+      | none => pure ()
+      t := t + 1
   let uref := gs.foldl (fun u g => (Dense.ofMat N (embed n g)).mul u) (Dense.ident N)
   let tolL : Float := 1e-5
   let tolP : Float := 1e-5 * (Float.ofNat (Nat.max depth 1))
